@@ -511,16 +511,25 @@ pub fn run_concurrent(sc: &Scenario) -> RunReport {
                 return rep;
             }
         }
-        // the shared iterator `it` walks 6 elements: every pull increments its index exactly once,
-        // so at most 6 pulls - by whichever threads - can report an element. (Which element a pull
-        // reports is NOT demanded: the helper increments the index and reads it again, so two
-        // concurrent pulls may report the same element. For the filtered pipeline `pipe` the bound
-        // is therefore the length of its SOURCE, not the number of elements that pass the filter.)
-        for (path, len) in [(0usize, ITER_ITEMS.len()), (1, ITER2_ITEMS.len()), (2, crate::cellmodel::PIPE_SOURCE_LEN)] {
-            let delivered = hist.iter().filter(|h| matches!(h.op.kind, OpKind::Pull) && h.op.path == path).filter(|h| obs_text(&h.obs).starts_with("(true")).count();
-            if delivered > len {
-                rep.violation = Some(("iterator-overdelivers".into(), format!("{delivered} pulls from the shared {len}-element iterator reported an element (its index is a cell incremented once per pull)")));
-                return rep;
+        // a shared iterator reports nothing but elements of its array. (How MANY pulls report one,
+        // and whether two concurrent pulls may report the same element, is not demanded: C16 asks
+        // for atomic assignments, no deadlock and no panic - not for exactly-once delivery. An
+        // earlier version bounded the number of deliveries by the length of the array, which holds
+        // for the pinned helper only because it advances its index with one `+=`; an equivalent
+        // helper that reads the index and stores index + 1 was reported. Removed: DESIGN section 11.)
+        for h in hist.iter().filter(|h| matches!(h.op.kind, OpKind::Pull)) {
+            let text = obs_text(&h.obs);
+            if let Some(rest) = text.strip_prefix("(true,") {
+                let v = rest.trim_end_matches(')').trim().parse::<i64>().ok();
+                let items: &[i64] = match h.op.path {
+                    1 => &ITER2_ITEMS,
+                    2 => &crate::cellmodel::PIPE_ITEMS,
+                    _ => &ITER_ITEMS,
+                };
+                if !v.is_some_and(|v| items.contains(&v)) {
+                    rep.violation = Some(("iterator-invents-element".into(), format!("T{} `{}` reported {text}, which is no element of the shared iterator's array {items:?}", h.thread, h.op.src())));
+                    return rep;
+                }
             }
         }
         // operations whose result does not depend on the history (consistent-snapshot reads, pure
